@@ -23,6 +23,7 @@ RULE = ('(a) every relative path of depth <=4 over {name, ., .., nested dir, abs
         'generated specs: Compiler.output_manifest() and the CLI --output-manifest list equal the set of '
         'files a real run creates and a manifest run creates no file. distinct = distinct (entry point, mode, '
         'path class, outcome) + (emit operation, text class) + (backend, manifest agreement) cells')
+RULE += ' ' + 'Emit texts include CR and other control characters; (c) also runs a backend module holding several Backend classes.'
 ASSUMPTIONS = ['directories created inside the output folder are not files; symbolic links are out of scope']
 REQUIRED_COUNTERS = ['path_requests', 'emit_scripts', 'manifest_comparisons']
 
